@@ -156,7 +156,8 @@ Definition child_by_edition (s2018 : status) : invocation -> status :=
 Definition o_all : opts := MkOpts false false false [] None None [] true false.
 Example exit_code_3 : fst (execute (x_world 5 105 (child_by_edition (Exited 3))) 5 o_all) = 3%Z.
 Proof. vm_compute. reflexivity. Qed.
-Example exit_signal_dropped : fst (execute (x_world 5 105 (child_by_edition Signaled)) 5 o_all) = 7%Z.
+(* since the repair (fix: commit 4ca8aa6) a signal death is a failure; before it this was 7 (the signal was dropped) *)
+Example exit_signal_is_failure : fst (execute (x_world 5 105 (child_by_edition Signaled)) 5 o_all) = 1%Z.
 Proof. vm_compute. reflexivity. Qed.
 Example spawn_failure_stops :
   let r := execute (x_world 5 105 (child_by_edition SpawnFailed)) 5 o_all in
